@@ -84,6 +84,19 @@ def build(spec, cfg, hist, collect=None):
 
 
 def _expand(args):
+    """Worker entry: a BaseException that is not an Exception (asyncio.CancelledError leaking out of the code under
+    test, SystemExit, ...) would kill the worker process and leave the pool waiting for ever; turn it into an error."""
+    try:
+        return _expand_chunk(args)
+    except Exception:
+        raise
+    except BaseException as exc:  # pylint: disable=broad-except
+        import traceback
+
+        raise HarnessError(f"{type(exc).__name__} escaped from a world step in a worker: {''.join(traceback.format_exception(exc))[-1500:]}") from None
+
+
+def _expand_chunk(args):
     """Worker: expand a chunk of frontier states of one configuration."""
     cfg_idx, cfg, hists, run_at_state, do_expand = args
     spec = _SPEC
